@@ -1,4 +1,5 @@
 import G3D.Proofs.KTieKvecAngle
+import G3D.Proofs.KTieKvecClamp
 import G3D.Proofs.KTieKvecOrth
 import G3D.Proofs.KTieKvecPar
 import G3D.Proofs.MethodsTieCalc
@@ -31,3 +32,7 @@ import G3D.Props.Classes
 #print axioms G3D.Tie.pyGeo_parallel_eq
 #print axioms G3D.Tie.pyGeo_orthogonal_eq
 #print axioms G3D.Tie.mcalc_complete
+#print axioms G3D.KTie.Kvec.angleClamp_paths
+#print axioms G3D.KTie.Kvec.acosArg_in_domain
+#print axioms G3D.KTie.Kvec.acosArg_of_in_range
+#print axioms G3D.KTie.Kvec.angle_ranges_any_rounding
